@@ -222,7 +222,13 @@ fn main() {
         "gen" => {
             let seed: u64 = args[2].parse().unwrap();
             let mut rng = rng::Rng::new(seed);
-            let set = gen::generate(&mut rng, &gen::GenCfg::default_cfg());
+            let mut gcfg = gen::GenCfg::default_cfg();
+            if args.get(3).map(|s| s.as_str()) == Some("rec") {
+                gcfg.recursion_bias = true;
+                gcfg.comments = false;
+                gcfg.modules = (2, 5);
+            }
+            let set = gen::generate(&mut rng, &gcfg);
             println!("{}", set.concat());
         }
         "gen-yield" => {
@@ -244,7 +250,7 @@ fn main() {
                     gcfg.real_components = true;
                     gcfg.components_of = true;
                     gcfg.echo_inner_names = true;
-                    gcfg.recursion_bias = seed % 3 == 0;
+                    gcfg.recursion_bias = seed % 2 == 0;
                     gcfg.value_import_bias = seed % 2 == 0;
                     gcfg.modules = (2, 5);
                 }
